@@ -7,10 +7,13 @@
    Full strength: the signature theorems hold for EVERY parameter list; the
    reflection theorem for every class body.  `_partial`: the theorems that a
    method is actually created assume names_ok -- names Python and
-   RestrictedPython accept and literal defaults.  What is missing there is
-   exactly the two known findings (operation / parameter names starting with an
-   underscore or reserved by RestrictedPython; an optional parameter typed by
-   an EEnum), shown below as `_refuted` examples. *)
+   RestrictedPython accept and defaults that are values (DLit).  What is
+   missing there is exactly the known finding about names (operation /
+   parameter names starting with an underscore or reserved by RestrictedPython),
+   shown below as a `_refuted` example.  (Every default pyecore produces is a
+   value since /repo fix 3896d2a -- enumeration literals included, the former
+   finding F-C20-enum-default; a default pasted as non-expression text, DEnum,
+   is kept in the model as the witness of why the old rendering failed.) *)
 From Coq Require Import String Ascii ZArith Bool List.
 From PyecoreV Require Import Lib.PyBase Lib.PyList Model.C3 Model.Operations Model.MetaEdit Proofs.OperationsProofs Proofs.MetaEditProofs.
 Import ListNotations.
@@ -159,8 +162,9 @@ Example C20_restricted_name_refuted :
   py_def (to_code (of_string "_hidden") [P "a" true 0]) = inl SyntaxErr.
 Proof. vm_compute. split; reflexivity. Qed.
 
-(* known finding F-C20-enum-default: an optional parameter typed by an EEnum *)
-Example C20_enum_default_refuted :
+(* a default pasted into the source as text that is not an expression (what pyecore did for an optional
+   parameter typed by an EEnum before /repo fix 3896d2a) does not compile; no longer reachable from pyecore *)
+Example C20_pasted_enum_default_does_not_compile :
   let ps := [P "a" true 0; mkParam (of_string "d") false (DEnum 7)] in
   well_ordered false ps = true /\ py_def (to_code (of_string "run") ps) = inl SyntaxErr.
 Proof. vm_compute. split; reflexivity. Qed.
